@@ -22,6 +22,9 @@ Ruled == \E i \in DOMAIN op.hints : RulesOut(op.hints[i], op.n)
 \*  caller gets an array exactly when all N slots were filled, otherwise everything written is dropped)
 Exact == IF op.name = "builder_extend" THEN Len(op.got) = op.n ELSE Len(op.got) = op.n /\ op.sawNone
 
+\* what the driver knows about the scripted source beyond what was observed: op.arg = 1 says that it yields exactly N
+\* items and then ends - a collector that gives up without asking for the end cannot hide behind not having seen it
+SourceIsExact == op.arg = 1 /\ Len(op.got) = op.n
 \* every pulled item has been dropped exactly once (vacuous for element types without destructor)
 AllGotDropped == ~Tracked \/ op.gdropped = SeqRange(op.got)
 LifeAfterFailure == IF Tracked THEN life
@@ -74,7 +77,7 @@ RetCollect(r) ==
        THEN /\ ~PanickingForm
             /\ r.outs = <<>>
             /\ AllGotDropped                             \* every pulled item dropped exactly once
-            /\ ~(Exact /\ ~Ruled /\ op.truthful)           \* a truthful exact source must succeed
+            /\ ~((Exact \/ SourceIsExact) /\ ~Ruled /\ op.truthful)   \* a truthful exact source must succeed
             /\ life' = LifeAfterFailure
             /\ UNCHANGED pool
        ELSE /\ Exact                                     \* Ok only for exactly N items, then None
@@ -95,7 +98,7 @@ UnwoundCollect(u) ==
        \/ /\ op.phase = "idle" /\ PanickingForm           \* the length-error panic
           /\ u.has_expected_msg                          \* the message says: expected N items
           /\ AllGotDropped
-          /\ ~(Exact /\ ~Ruled /\ op.truthful)
+          /\ ~((Exact \/ SourceIsExact) /\ ~Ruled /\ op.truthful)
     /\ life' = [e \in DOMAIN life |->
                   IF e \in SeqRange(op.got) \ op.gdropped THEN (IF Tracked THEN "abandoned" ELSE "dropped") ELSE life[e]]
     /\ op' = NoOp
